@@ -87,6 +87,10 @@ def items(tier, seed):
     for i, it in enumerate(spec_items(tier)):
         if i % 3 == 2:
             it = build.with_ns_rewards(it)
+        if i % 5 == 1 and it[1] <= 3:
+            # an outcome listed with probability 0 (a state nothing leads to / an entry of the initial distribution / an
+            # existing state) is no outcome: it is never sampled, and must not keep anything from being labelled solved
+            it = build.with_zero_entry(it, ('outside_pit', 'zero_init', 'inside', 'outside')[(i // 5 + seed) % 4])[0]
         yield (it, (i + seed) % len(SLAB), (i + seed) % 2)
 
 
@@ -260,6 +264,16 @@ def check(item, tier):
                         r.count('executions')
                         r.count('states')
                         r.count('transitions')
+                    continue
+                # pre-flight under default answers: a planner that does not get its initial states solved within the trial budget
+                # is reported once, not explored (every one of its executions would run to the budget)
+                ex0 = Explorer(bound=0, max_points=200000)
+                with patched_random(ex0):
+                    out0, trunc0 = ex0.run_one([], body)
+                r.count('executions')
+                if trunc0 or any(not out0.solved[sl(s)] for s in init_support):
+                    r.violation('initial_state_not_solved', dict(ctx, schedule='default answers', trials_allowed=300,
+                                                                  truncated=bool(trunc0)), item)
                     continue
                 with patched_random(ex):
                     ex.explore(body, on_exec)
